@@ -364,7 +364,7 @@ func runC18(a *Analyzer, r *Results) {
 					if bi, ok := cc.Value.(*ssa.Builtin); ok && bi.Name() == "copy" && isCommitteeSlice(cc.Args[0].Type()) {
 						target, what = cc.Args[0], "copy into"
 					}
-					if g := cc.StaticCallee(); g != nil && (funcPkgPath(g) == "sort" || funcPkgPath(g) == "slices" || funcPkgPath(g) == "math/rand") {
+					if g := cc.StaticCallee(); g != nil && (funcPkgPath(g) == "sort" || funcPkgPath(g) == "slices" || funcPkgPath(g) == "math/rand") && mutatesSlice(g.Name()) {
 						for _, arg := range cc.Args {
 							v := arg
 							if mi, ok := v.(*ssa.MakeInterface); ok {
@@ -634,4 +634,14 @@ func constLE(x, y string) bool {
 		return false
 	}
 	return fx.Cmp(fy) <= 0
+}
+
+// mutatesSlice: sort / slices / rand functions that reorder their argument (the read-only queries IsSorted, Search, Index, Contains ... do not).
+func mutatesSlice(name string) bool {
+	for _, p := range []string{"IsSorted", "SliceIsSorted", "Search", "BinarySearch", "Index", "Contains", "Equal", "Compare", "Max", "Min", "Clone"} {
+		if strings.HasPrefix(name, p) {
+			return false
+		}
+	}
+	return true
 }
